@@ -17,6 +17,8 @@ mod c11;
 mod c12;
 mod c13;
 mod c14;
+mod c15;
+mod c16;
 mod c17;
 mod c18;
 mod c19;
@@ -82,6 +84,8 @@ fn main() {
         "C11" => c11::run(&mut rec, &mut w, &tier, seed),
         "C18" => c18::run(&mut rec, &mut w, &tier, seed),
         "C19" => c19::run(&mut rec, &mut w, &tier, seed),
+        "C15" => c15::run(&mut rec, &mut w, &tier, seed),
+        "C16" => c16::run(&mut rec, &mut w, &tier, seed),
         "C02" => c02::run(&mut rec, &mut w, &tier, seed),
         "C03" => c03::run(&mut rec, &mut w, &tier, seed),
         "C04" => c04::run(&mut rec, &mut w, &tier, seed),
